@@ -200,6 +200,11 @@ def entry_points(prog, rep):
                 bad, undec, ncp = [], [], 0
                 for rng, name in shortcuts:
                     for lo, hi in rng:
+                        if hi > ucd.MAXCP:
+                            # values that are no code points: no table row matches, HasCompat is false (no char)
+                            ncp += 1
+                            if name != ps.DEFAULT_OUTCOME:
+                                bad.append((max(lo, ucd.MAXCP + 1), name, ps.DEFAULT_OUTCOME))
                         for cp in range(lo, min(hi, ucd.MAXCP) + 1):
                             ncp += 1
                             want = spec_outcome(prog, cp, cls)
@@ -276,8 +281,18 @@ def has_compat(prog, rep):
                         if case == "B":
                             return ip.some(ip.Sym(("more", pos), "char"))
                     return ip.some(ip.Sym(("more", pos), "char")) if st.choose(("nfkc-more", pos), [True, False]) else ip.none()
+            if name == "once" and p.startswith("core::iter::sources::once") and len(args) == 1:
+                return ip.Opq("once", (args[0],))
             if name in ("eq", "ne") and len(args) == 2:
                 x, y = deref_all(m, st, args[0]), deref_all(m, st, args[1])
+                kinds = {getattr(x, "kind", None), getattr(y, "kind", None)}
+                if kinds == {"nfkc-seq", "once"}:
+                    # the whole NFKC stream compared with the one-element sequence [c]: equal exactly in case A
+                    seq = x if x.kind == "nfkc-seq" else y
+                    one = y if x.kind == "nfkc-seq" else x
+                    if seq.data[1] == 0 and isinstance(one.data[0], ip.Sym) and one.data[0].name == "c":
+                        r = seq.data[0] == "A"
+                        return ip.boolean(r if name == "eq" else not r)
                 if isinstance(x, ip.Str) and isinstance(y, ip.Str):
                     r = x.tag == y.tag
                     return ip.boolean(r if name == "eq" else not r)
